@@ -391,11 +391,15 @@ def cli_suite(ctx, count, formats=None, focus=None):
     # the Lean model of the whole program against the real stdout, character by character
     if model_cases and not (ctx.lean is not None and not ctx.lean.driver_ok):
         from driver import run_lines
-        setup = []
-        for lang in ('en', 'ja'):
-            setup.append(grammar_common.set_seen_line('ship_' + lang, sorted(grammar_common.seen_set(lang), key=lambda p: (str(p[0]), str(p[1])))))
-            setup.append(grammar_common.set_unary_line('ship_' + lang, grammar_common.unary_table(lang)))
-        outs = run_lines(setup + [c[1] for c in model_cases])[len(setup):]
+        # the grammar tables of the model program come from the raw strings of the configuration through the Lean
+        # model of read_params (Config.lean), called as main() calls it: read_params(config, args) — `args` lands in
+        # the position of disable_category_dictionary, seen rules stay enabled
+        setup = [set_config_line('ship_' + lang, lang, True, False) for lang in ('en', 'ja')]
+        outs_all = run_lines(setup + [c[1] for c in model_cases])
+        for lang, o in zip(('en', 'ja'), outs_all):
+            if o != 'ok':
+                ctx.disagree('set_config', {'lang': lang}, o, 'ok', note='the Lean model of read_params rejects the shipped configuration')
+        outs = outs_all[len(setup):]
         for (op, line, impl_out, desc), m in zip(model_cases, outs):
             ctx.traces += 1
             if m != impl_out:
@@ -640,3 +644,16 @@ def read_params_model_cases(ctx, count):
         line = ' '.join(line.split())
         cases.append(('read_params', line, got, desc))
     return cases
+
+
+def set_config_line(name, lang, dd, ds):
+    """the shipped configuration of a language as raw strings for the driver's `set_config`"""
+    from wire import enc_str
+    v = tables.VARIANTS[lang]
+    unary = [list(p) for p in tables.load(v['unary'])]
+    seen = [list(p) for p in tables.load(v['seen'])]
+    targets = list(tables.load(v['targets']))
+    line = (f'set_config {name} {int(dd)} {int(ds)} {len(unary)} ' + ' '.join(enc_str(a) + ' ' + enc_str(b) for a, b in unary)
+            + f' {len(seen)} ' + ' '.join(enc_str(a) + ' ' + enc_str(b) for a, b in seen)
+            + f' {len(targets)} ' + ' '.join(enc_str(t) for t in targets) + ' 0')
+    return ' '.join(line.split())
